@@ -235,6 +235,7 @@ Definition x_missing_key : N := 4.  Definition x_no_suitable : N := 5.  Definiti
 Definition x_value : N := 7.    Definition x_service : N := 8.          Definition x_key : N := 9.
 Definition x_expired : N := 12. Definition x_unresolved : N := 13.      Definition x_unregistered_uri : N := 14.
 Definition x_alg : N := 15.     Definition x_issuer_nf : N := 16.
+Definition x_missing_attr : N := 17.  Definition x_missing_value : N := 18.
 (* error codes / descriptions *)
 Definition e_invalid_request : N := 1.  Definition e_unauthorized_client : N := 2.
 Definition d_alg : N := 1.  Definition d_rtype : N := 2.  Definition d_redirect : N := 3.  Definition d_unknown : N := 4.
@@ -376,6 +377,12 @@ Definition err_state (r : req) : option pv :=
   | x => x
   end.
 
+(* 153df1e: once the request object fetched from a request_uri has been merged in, the assembled request is verified
+   as a whole (Endpoint.verify_request with resolved=True): required parameters, then the OIDC checks *)
+Definition reverify (g : cfg) (m : req) : outcome :=
+  if missing_required (oidc g) (r_params m) then ErrResp e_invalid_request d_missing None
+  else if oidc g then oidc_checks m else Acc m.
+
 (* Authorization._do_request_uri; returns the new state, the outcome and the urn that was redeemed *)
 Definition do_request_uri (g : cfg) (d : docs) (st : state) (r : req) (cid : option pystr)
   : state * outcome * option pystr :=
@@ -409,7 +416,7 @@ Definition do_request_uri (g : cfg) (d : docs) (st : state) (r : req) (cid : opt
                 match from_jwt g cid w with
                 | FOk v =>
                     if negb (allowed g c (v_alg v)) then (st, Exc x_alg, None)
-                    else (st, Acc {| r_params := update (r_params r) (v_claims v); r_vr := Some v |}, None)
+                    else (st, reverify g {| r_params := update (r_params r) (v_claims v); r_vr := Some v |}, None)
                 | FMalformed => (st, AnyRefusal, None)
                 | FUnmodelled => (st, OUnmodelled, None)
                 | FIssuerNotFound => (st, Exc x_issuer_nf, None)
@@ -571,12 +578,28 @@ Definition par_parse (g : cfg) (st : state) (pusher : pystr) (body : params) (w 
 
 Inductive pushres := PUrn (expires_in : Z) | PStoredExc (tag : N) | PExc (tag : N) | PNone | PUnmodelled.
 (* process_request: AuthorizationRequest(request).verify() = strict merge again; store under the urn *)
+(* 2492cd8: the request is parsed with the authorization endpoint's class, so an OIDC provider applies the OIDC
+   checks at push time (they raise: process_request does not turn them into error responses) *)
+Definition par_class_checks (g : cfg) (s : req) : option N :=
+  if negb (oidc g) then None else
+  if negb (has_key k_client_id (r_params s)) then Some x_key else      (* args["opponent_id"] = self["client_id"] after the strict merge *)
+  match oidc_checks s with
+  | Acc _ => None
+  | ErrResp _ dd _ => Some (if (dd =? d_openid)%N then x_missing_value else x_missing_attr)
+  | _ => Some 0%N          (* outside the modelled fragment; par_process answers PUnmodelled *)
+  end.
 Definition par_process (g : cfg) (st : state) (r : req) (w : option wobj) (urn : pystr) : state * pushres :=
+  if oidc g && missing_required true (r_params r) then (st, PExc x_missing_attr) else
   let stored := merge_obj true g (r_params r) w in
   match stored with
   | Acc s =>
+      match par_class_checks g s with
+      | Some 0%N => (st, PUnmodelled)
+      | Some t => (st, PExc t)
+      | None =>
       let st' := {| par_db := aset urn {| e_req := s; e_exp := now st + ttl g |} (par_db st); now := now st |} in
       if has_key k_redirect_uri (r_params s) then (st', PUrn (ttl g)) else (st', PStoredExc x_key)
+      end
   | Exc t => (st, PExc t)
   | AnyRefusal => (st, PExc 0)
   | _ => (st, PUnmodelled)
